@@ -84,7 +84,7 @@ func RunW1(p *Profile, plan, sched *simrt.Source, trace bool) *RunOut {
 						anyStop = true
 					}
 				}
-				if !anyStop {
+				if !anyStop && !c.PresetTag {
 					t := &Call{Idx: len(sc.Calls), Method: um, B: c.B, Names: c.Names, Plan: c.Plan, TwinOf: c.Idx}
 					sc.Calls = append(sc.Calls, t)
 					callState = append(callState, state)
